@@ -29,8 +29,8 @@ META = {
     "id": "C10",
     "level": "proof",
     "technique": "Coq: literal five-branch scan proved equal to an independent structurally recursive specification and to the declarative definition of valid sub-paths (simulation with loop invariant), corollaries by NoDup/Permutation; exhaustive small-scope lock-step of the extracted model (and extracted spec) vs the real tis.py functions",
-    "text": "Unbounded theorems (every order sequence, every left/right pair incl. left = right and left > right, every move assignment, every random number): the scan returns exactly the valid sub-paths (entry, exit, interior count) in order; weight = number of frames strictly inside valid sub-paths, positive iff such a frame exists, 0 for an empty region, invariant under time reversal (mirrored segments); compute_weight doubles exactly when the ends are on different outer sides and the move is wf/ss; calc_cv_vector has one entry per interface, last 0, 1/0 by lambda_k <= max for non-wf columns, (1,)/(0,) for [0-]; segment k is chosen iff c_{k-1}/n < u <= c_k/n (interval length len_k/n), the choice is a valid sub-path and the seed consists of frames entry..exit inclusive; p_swap = c1n*c2n/(c1o*c2o) (1 if a denominator is 0). The model is tied to /repo by running model, extracted spec and the real functions on the same inputs and by evaluating the statement on the implementation's outputs. The proportional-pick clause is additionally judged on paths holding >= 2 valid sub-paths of unequal frame counts (all such sequences of the small scope, systematic count pairs/triples, seeded random ones with decoys) over a fine grid of random numbers: multiples of 1/64, every boundary c_k/n with its float neighbours, interval midpoints, the boundaries j/m of a count-blind draw. Any answer of the implementation (exception, None, wrong shape, a sub-path that is not a valid one, frames that are not the path's) is judged by the oracle and reported with the input (path, left/right, random number); it never stops the check.",
-    "note": "All theorems print 'Closed under the global context' (no axioms). Trusted: Coq kernel; extraction (ExtrOcamlBasic) + ocaml/util.ml + ocaml/c10_driver.ml (the 'has' command composes four compute_weight calls in the driver); the Python harness, its generators and its brute-force oracle. Floats: exhaustive cases use integer-valued orders; random real-valued cases are passed to the model as exact dyadic rationals scaled to integers; the float quotient sum_frames/n_frames (and c1n*c2n/(c1o*c2o)) is compared with the model's exact rational only at float neighbours of a boundary or at exactly representable boundaries, other exact-boundary values are counted as float_boundary_skipped. The uniform law of rgen.random() is assumed (the theorem gives the interval, hence probability len_k/n). Sub-path extraction assumes len(path) <= maxlen (Path.append refuses beyond maxlen). Random numbers outside [0,1) (1.0, 1.5, the float above 1) are only compared with the model (its interval law is proved for every u): an exception of the implementation there is a correspondence report without failing input, inside [0,1) it is a failure of the statement with the input. Reports: at most 3 per kind of case, concrete failing inputs first.",
+    "text": "Unbounded theorems (every order sequence, every left/right pair incl. left = right and left > right, every move assignment, every random number): the scan returns exactly the valid sub-paths (entry, exit, interior count) in order; weight = number of frames strictly inside valid sub-paths, positive iff such a frame exists, 0 for an empty region, invariant under time reversal (mirrored segments); compute_weight doubles exactly when the ends are on different outer sides and the move is wf/ss; calc_cv_vector has one entry per interface, last 0, 1/0 by lambda_k <= max for non-wf columns, (1,)/(0,) for [0-], and (1,) for every valid [0-] path whether lambda_minus_one is absent or any number, 0 included, for all four types L->L, L->R, R->L, R->R and whether or not lambda_0 is reached (C10_cv_vector_valid_minus_path; lambda_minus_one is an option in the model, never a truth value); segment k is chosen iff c_{k-1}/n < u <= c_k/n (interval length len_k/n), the choice is a valid sub-path and the seed consists of frames entry..exit inclusive: frame t of the returned segment is frame entry+t of the path for every path with len(path) <= path.maxlen (or path.maxlen None), no other length limit is read (C10_pick_seed_exact, C10_seed_whole), while a container limit below frames+2 returns a strict prefix without the exit frame (C10_seed_smaller_limit_refuted); p_swap = c1n*c2n/(c1o*c2o) (1 if a denominator is 0). The model is tied to /repo by running model, extracted spec and the real functions on the same inputs and by evaluating the statement on the implementation's outputs. The proportional-pick clause is additionally judged on paths holding >= 2 valid sub-paths of unequal frame counts (all such sequences of the small scope, systematic count pairs/triples, seeded random ones with decoys) over a fine grid of random numbers: multiples of 1/64, every boundary c_k/n with its float neighbours, interval midpoints, the boundaries j/m of a count-blind draw. The seed clause is additionally judged under length limits (family pick_length_limits): the implementation gets a full ensemble dictionary whose tis_set.maxlength lies below, at and above the number of phase points of every valid sub-path (also 1, 2, 3, len(path)+-1, 2000) and a path whose own maxlen is len(path), len(path)+1, 100000 or None, one random number per sub-path; the returned segment must be exactly one valid sub-path with both end points by frame identity and order and the weight the number of frames on valid sub-paths, whatever the limits. The [0-] clause is judged on every lambda_minus_one among absent (False), negative, 0.0, -0.0 and positive below lambda_0 (lambda_0 positive, 0.0 and negative) x every sequence over {below lambda_-1, = lambda_-1, between, = lambda_0, above lambda_0} up to length 4 (thorough 5) and every valid [0-] path one frame longer (family calc_cv_vector_minus). Any answer of the implementation (exception, None, wrong shape, a sub-path that is not a valid one, frames that are not the path's) is judged by the oracle and reported with the input (path, left/right, random number); it never stops the check.",
+    "note": "All theorems print 'Closed under the global context' (no axioms). Trusted: Coq kernel; extraction (ExtrOcamlBasic) + ocaml/util.ml + ocaml/c10_driver.ml (the 'has' command composes four compute_weight calls in the driver); the Python harness, its generators and its brute-force oracle. Floats: exhaustive cases use integer-valued orders; random real-valued cases are passed to the model as exact dyadic rationals scaled to integers; the float quotient sum_frames/n_frames (and c1n*c2n/(c1o*c2o)) is compared with the model's exact rational only at float neighbours of a boundary or at exactly representable boundaries, other exact-boundary values are counted as float_boundary_skipped. The uniform law of rgen.random() is assumed (the theorem gives the interval, hence probability len_k/n). Sub-path extraction assumes len(path) <= path.maxlen (Path.append refuses beyond maxlen, so no path built by the program is longer than its own maxlen); tis_set.maxlength is NOT assumed to bound anything (a loaded path, or a restart with a lowered maxlength, has sub-paths longer than it). Random numbers outside [0,1) (1.0, 1.5, the float above 1) are only compared with the model (its interval law is proved for every u): an exception of the implementation there is a correspondence report without failing input, inside [0,1) it is a failure of the statement with the input. Reports: at most 3 per kind of case, concrete failing inputs first.",
     "design_ref": "4/C10",
 }
 LEVEL = "proof"
@@ -232,10 +232,13 @@ class Impl:
         """-> (weight, frames of the returned path, path, problem)"""
         return self._weight_and_seg(call(self.tis.wirefence_weight_and_pick, p, left, right))
 
-    def pick(self, p, left, right, u):
-        """-> (n_frames, frame indices of the seed or None, orders of the seed frames, seed path, problem)"""
+    def pick(self, p, left, right, u, ens=None):
+        """-> (n_frames, frame indices of the seed or None, orders of the seed frames, seed path, problem)
+        ens: further entries of the ensemble dictionary handed over as ens_set (tis_set, ...)"""
         idx = {id(s): i for i, s in enumerate(p.phasepoints)}
-        r = call(self.tis.wirefence_weight_and_pick, p, left, right, return_seg=True, ens_set={"rgen": Rgen(u)})
+        ens_set = dict(ens or {})
+        ens_set["rgen"] = Rgen(u)
+        r = call(self.tis.wirefence_weight_and_pick, p, left, right, return_seg=True, ens_set=ens_set)
         w, pp, seg, prob = self._weight_and_seg(r)
         if prob:
             return w, None, [], seg, prob
@@ -437,6 +440,50 @@ def built_unequal_paths(rng, nrandom):
     return res
 
 
+def limit_values(osegs, npath):
+    """tis_set.maxlength values below, at and above the number of phase points (frames + 2) of every
+    valid sub-path, around the length of the whole path, tiny and generous."""
+    vals = {1, 2, 3, npath - 1, npath, npath + 1, 2000}
+    for _s, _e, n in osegs:
+        vals.update((n, n + 1, n + 2, n + 3))
+    return sorted((v for v in vals if v >= 1), reverse=True)
+
+
+def interval_midpoints(osegs):
+    """one random number per valid sub-path (the midpoint of its selecting interval) + both ends of [0, 1)"""
+    n = sum(s[2] for s in osegs)
+    us, c = [0.0, 1.0 - 2.0 ** -53], 0
+    for s in osegs:
+        us.append((2 * c + s[2]) / (2.0 * n))
+        c += s[2]
+    return sorted(set(us))
+
+
+def long_subpath_paths(rng, nrandom):
+    """Paths for (left, right) = (1, 3) whose valid sub-paths are long compared with usual limits
+    (a long recrossing sub-path of a loaded path), next to short ones, decoys and jumps."""
+    out = []
+    for c in (8, 12, 20, 33):
+        out.append((0, 0) + (2,) * c + (0, 0))                                         # one L->L
+        out.append((0,) + (1,) * 3 + (4,) + (2,) * 2 + (4,) + (2,) * c + (0, 0))      # L->R, R->R decoy, long R->L
+        out.append((0,) + (1,) * c + (0,) + (2,) * 2 + (0,))                           # long and short L->L
+        out.append((3,) + (2,) * c + (0,) + (1,) + (4, 0) + (2,) * (c // 2) + (3,))   # R->L, L->R (frame on right), jump, L->R
+    for _ in range(nrandom):
+        seq = [rng.choice((0, 0, 3, 4))]
+        for _k in range(rng.randrange(1, 5)):
+            inner = [rng.choice((1, 2, 2)) for _j in range(rng.choice((1, 2, 3, 7, 15, 30)))]
+            seq += inner + [rng.choice((0, 0, 3, 4))]
+            if rng.random() < 0.2:
+                seq += [rng.choice((0, 3, 4))]
+        out.append(tuple(seq))
+    seen, res = set(), []
+    for seq in out:
+        if seq not in seen and oracle_segments(seq, 1, 3):
+            seen.add(seq)
+            res.append(seq)
+    return res
+
+
 def float_decision_differs(osegs, u):
     """True iff for some cumulative boundary the float test `c / n >= u` of the code and the
     exact test c/n >= u disagree (u within rounding error of a non-representable boundary)."""
@@ -450,13 +497,30 @@ def float_decision_differs(osegs, u):
     return False
 
 
-def pick_case(B, I, orders, left, right, u, ints=None, tag="pick"):
+def full_ens(left, right, tis_maxlength):
+    """An ensemble dictionary of the shape REPEX_state.initiate_ensembles builds for a wire-fencing
+    ensemble (lambda_i = left, cap = right), with the CURRENT tis_set.maxlength of the run."""
+    return {"interfaces": (float(left) - 1.0, float(left), float(right) + 1.0),
+            "tis_set": {"maxlength": tis_maxlength, "allowmaxlength": False, "zero_momentum": False,
+                        "n_jumps": 2, "interface_cap": float(right), "quantis": False, "accept_all": False,
+                        "lambda_minus_one": False},
+            "mc_move": "wf", "ens_name": "001", "start_cond": "L"}
+
+
+NOLIMITS = object()
+
+
+def pick_case(B, I, orders, left, right, u, ints=None, tag="pick", tis_maxlength=NOLIMITS, path_maxlen=10000):
+    """tis_maxlength given (family 'length limits'): the implementation gets a full ensemble dictionary
+    whose tis_set.maxlength is that value and a path whose own maxlen is path_maxlen (None = no limit);
+    the model (command pickm) gets path.maxlen, the only limit the code reads."""
+    limits = tis_maxlength is not NOLIMITS
     osegs = oracle_segments(orders, left, right)
     if osegs and float_decision_differs(osegs, u):
         B.ctx.dist("float_boundary_skipped")
         return
-    p = I.path(orders, unique=True, cache=(ints is None))
-    w, ii, seed_orders, seg, prob = I.pick(p, left, right, u)
+    p = I.path(orders, unique=True, cache=(ints is None), maxlen=path_maxlen)
+    w, ii, seed_orders, seg, prob = I.pick(p, left, right, u, ens=(full_ens(left, right, tis_maxlength) if limits else None))
     fu = Fraction(*float(u).as_integer_ratio())
     k = oracle_pick(osegs, fu)                       # what the statement's interval law selects
     law = None if k is None else osegs[k]
@@ -493,12 +557,20 @@ def pick_case(B, I, orders, left, right, u, ints=None, tag="pick"):
         l_i, r_i, o_i = ints
     if ii is not None and not prob:
         if all(isinstance(j, int) and 0 <= j < len(o_i) for j in ii):
-            io =f"{ii[0]}:{ii[-1]}:{ii[-1] - ii[0] - 1} {enc([o_i[j] for j in ii])}"
+            # with limits: the frame indices (identities) themselves; without: the orders they carry
+            io = f"{ii[0]}:{ii[-1]}:{ii[-1] - ii[0] - 1} {enc(ii) if limits else enc([o_i[j] for j in ii])}"
         else:
             io = "?" + "_".join(short(ii, 80).split())
     note = "" if 0.0 <= u < 1.0 else f" (u={u!r} is not a possible value of rgen.random(); the model's interval law is proved for every u)"
-    B.add(f"pick {l_i} {r_i} {enc(o_i)} {fu.numerator}/{fu.denominator}", io, err,
-          {"op": tag, "orders": list(orders), "left": left, "right": right, "u": u},
+    desc = {"op": tag, "orders": list(orders), "left": left, "right": right, "u": u}
+    req = f"pick {l_i} {r_i} {enc(o_i)} {fu.numerator}/{fu.denominator}"
+    if limits:
+        desc["tis_maxlength"], desc["path_maxlen"] = tis_maxlength, path_maxlen
+        req = f"pickm {l_i} {r_i} {enc(o_i)} {fu.numerator}/{fu.denominator} {'N' if path_maxlen is None else path_maxlen} {tis_maxlength}"
+        if err:
+            err += (f" [ensemble tis_set.maxlength = {tis_maxlength}, path.maxlen = {path_maxlen}, path of {len(orders)} frames {short(list(orders), 200)}, "
+                    f"left/right = {left}/{right}: the seed is exactly one valid sub-path with both end points whatever the length limits]")
+    B.add(req, io, err, desc,
           lambda mo, io_: None if mo == io_ else f"model '{mo}' vs implementation '{io_}'{note}")
 
 
@@ -543,10 +615,45 @@ def oracle_cv(orders, intfs, moves, lm1, cap, minus):
     return out + [0]
 
 
-def cv_case(B, I, p, orders, intfs, moves, lm1, cap, minus, ints=None):
+def minus_path_type(orders, lm1, lam0):
+    """The declarative notion of a valid [0-] path (coq/proofs/WeightP.v minus_path): None if the
+    sequence is not one, else its type.  lm1 False: ensemble (-inf, lambda_0, lambda_0), start R.
+    lm1 a number (0 included): ensemble (lm1, ., lambda_0), start L or R; ends at or beyond an
+    interface, frames in between inside [lm1, lambda_0] (stop rule: < lm1 or > lambda_0)."""
+    if len(orders) < 3:
+        return None
+    first, mid, last = orders[0], orders[1:-1], orders[-1]
+    if lm1 is False:
+        return "R->R" if (first >= lam0 and last >= lam0 and all(x <= lam0 for x in mid)) else None
+
+    def side(x):
+        return "L" if x <= lm1 else ("R" if x >= lam0 else None)
+    if side(first) and side(last) and all(lm1 <= x <= lam0 for x in mid):
+        return f"{side(first)}->{side(last)}"
+    return None
+
+
+def lm1_class(lm1):
+    return "absent" if lm1 is False else ("negative" if lm1 < 0 else ("zero" if lm1 == 0 else "positive"))
+
+
+# (lambda_0, further interfaces, lambda_minus_one values: absent, negative, 0.0, -0.0, positive below lambda_0)
+MINUS_CFG = [
+    (4, (6, 9), [False, -3, 0.0, -0.0, 2]),
+    (1, (3,), [False, -2, 0.0, -0.0]),          # lambda_-1 = 0.0 directly below lambda_0: nothing in between
+    (0, (2, 5), [False, -2, -1]),               # lambda_0 = 0.0 itself
+    (-2, (0, 3), [False, -5, -3]),
+    (7, (8,), [False, 0.0, 5, 6]),
+]
+
+
+def cv_case(B, I, p, orders, intfs, moves, lm1, cap, minus, ints=None, tag="calc_cv_vector", valid_type=None):
+    """valid_type: the sequence is a valid [0-] path of that type (family calc_cv_vector_minus): the
+    statement then gives (1,) whatever lambda_minus_one is (absent or any number, 0.0 included)."""
     r = I.cv(p, [float(x) for x in intfs], moves, (False if lm1 is False else float(lm1)),
              (None if cap is None else float(cap)), minus)
     exp = oracle_cv(orders, intfs, moves, lm1, cap, minus)
+    assert valid_type is None or exp == [1], "harness: the two formulations of the [0-] clause disagree"
     err = None
     undefined = isinstance(r, Raised)          # any exception = no weight vector for this input
     wellformed = isinstance(r, (tuple, list)) and all(is_num(x) for x in r)
@@ -563,12 +670,18 @@ def cv_case(B, I, p, orders, intfs, moves, lm1, cap, minus, ints=None):
             err = f"calc_cv_vector = {short(r)}, statement gives {exp}"
         elif not isinstance(r, tuple):
             err = "weight vector is not a tuple"
+    if err and minus:
+        kind = f"a valid [0-] path of type {valid_type}" if valid_type else "a [0-] path"
+        err += (f" [{kind}, orders {short(list(orders), 200)}, lambda_minus_one = {lm1!r} ({lm1_class(lm1)}), "
+                f"interfaces {list(intfs)}: the weight vector of a valid [0-] path is (1,); lambda_minus_one is absent (False) or a number, 0.0 included]")
     if ints is None:
         o_i, f_i, lm_i, cap_i = orders, intfs, lm1, cap
     else:
         o_i, f_i, lm_i, cap_i = ints
+    if lm_i is not False and float(lm_i).is_integer():
+        lm_i = int(lm_i)                       # 0.0 / -0.0 / 2.0 -> the integer token of the model protocol
     B.add(f"cv {enc(o_i)} {enc(f_i)} {enc(moves)} {'N' if lm_i is False else lm_i} {'N' if cap_i is None else cap_i} {int(minus)}",
-          io, err, {"op": "calc_cv_vector", "orders": list(orders), "interfaces": list(intfs), "moves": list(moves),
+          io, err, {"op": tag, "orders": list(orders), "interfaces": list(intfs), "moves": list(moves),
                     "lambda_minus_one": lm1, "cap": cap, "minus": minus})
 
 
@@ -690,6 +803,42 @@ def run(ctx):
     ctx.dist("pick_unequal_lengths", nuneq)
     B.flush()
 
+    # ---------------- 2c. the seed and the length limits: tis_set.maxlength of the ensemble below, at
+    # and above the number of phase points of every valid sub-path; path.maxlen independently
+    # len(path) (the smallest a path can have), len(path)+1, the default of loaded paths, None.
+    # Oracle (pick_case): the seed is EXACTLY one valid sub-path, entry..exit inclusive, by frame
+    # identity and order, and the weight is the number of frames on valid sub-paths.
+    nlim = nlim_paths = 0
+    lim_below = lim_at = lim_above = 0
+    Llim = 4 if quick else 5
+    lim_small = [seq for L in range(3, Llim + 1) for seq in itertools.product(ALPHA, repeat=L) if oracle_segments(seq, 1, 3)]
+    lim_next = [seq for seq in itertools.product(ALPHA, repeat=Llim + 1) if oracle_segments(seq, 1, 3)]
+    lim_long = long_subpath_paths(rng, 40 if quick else 600) + built_unequal_paths(rng, 30 if quick else 400)
+    for fam, seqs in (("small", lim_small), ("next", lim_next), ("long", lim_long)):
+        for seq in seqs:
+            osegs = oracle_segments(seq, 1, 3)
+            nlim_paths += 1
+            npts = [s[2] + 2 for s in osegs]
+            pmls = [len(seq), len(seq) + 1, 100000, None]
+            us = interval_midpoints(osegs)
+            for k, M in enumerate(limit_values(osegs, len(seq))):
+                lim_below += any(M < x for x in npts)
+                lim_at += any(M == x for x in npts)
+                lim_above += all(M > x for x in npts)
+                # small scope: every path.maxlen with every tis maxlength; beyond: rotate path.maxlen
+                # over the tis maxlength values (the two limits stay independent of each other)
+                rot = (k + nlim_paths) % 4
+                for pml in (pmls if fam == "small" else [pmls[rot]] if fam == "next" else [pmls[rot], pmls[(rot + 1 + k // 4) % 4]]):
+                    for u in (us if fam != "next" else us[1:-1]):
+                        pick_case(B, I, seq, 1, 3, u, tag="pick_length_limits", tis_maxlength=M, path_maxlen=pml)
+                        nlim += 1
+    ctx.dist("pick_length_limits_paths", nlim_paths)
+    ctx.dist("pick_length_limits", nlim)
+    ctx.dist("pick_length_limits_maxlength_below_a_subpath", lim_below)
+    ctx.dist("pick_length_limits_maxlength_equal_to_a_subpath", lim_at)
+    ctx.dist("pick_length_limits_maxlength_above_all_subpaths", lim_above)
+    B.flush()
+
     # ---------------- 3. compute_weight: all sequences x interface triples x moves
     Lcw = 5 if quick else 6
     trips = [(0, 1, 3), (1, 1, 3), (1, 2, 3), (0, 2, 4), (2, 1, 3), (4, 1, 3), (0, 3, 1), (2, 2, 2), (1, 1, 1), (0, 1, 4), (3, 1, 3), (1, 3, 3)]
@@ -735,6 +884,38 @@ def run(ctx):
         cv_case(B, I, p, seq, (2,), ["sh", "wf"], False, None, False)
         ncv += 3
     ctx.dist("calc_cv_vector", ncv)
+    B.flush()
+
+    # ---------------- 4b. [0-] weight vector: every lambda_minus_one among {absent (False), negative,
+    # 0.0, -0.0, positive below lambda_0} x every sequence over the alphabet {below lambda_-1, = lambda_-1,
+    # between, = lambda_0, above lambda_0} up to length Lm, plus every VALID [0-] path (all four types
+    # L->L, L->R, R->L, R->R, frames touching the interfaces) of length Lm+1; the statement gives (1,)
+    # for every valid one (and 1/0 by lambda <= max for the others)
+    Lm = 4 if quick else 5
+    ncvm = 0
+    for lam0, more, lm1s in MINUS_CFG:
+        intfs = (lam0,) + tuple(more)
+        for lm1 in lm1s:
+            if lm1 is False:
+                alpha = [lam0 - 2, lam0 - 1, lam0, lam0 + 1]
+                ends, inner = [lam0, lam0 + 1], [lam0 - 2, lam0 - 1, lam0]
+            else:
+                l = int(lm1)
+                between = sorted({x for x in (l + 1, lam0 - 1) if l < x < lam0})
+                alpha = [l - 1, l] + between + [lam0, lam0 + 1]
+                ends, inner = [l - 1, l, lam0, lam0 + 1], [l] + between + [lam0]
+            # valid paths first (so that they head the reports), then every sequence
+            seqs = [(a,) + mid + (b,) for a in ends for b in ends for mid in itertools.product(inner, repeat=Lm - 1)]
+            seqs += [sq for L in range(1, Lm + 1) for sq in itertools.product(alpha, repeat=L)]
+            for sq in seqs:
+                p.phasepoints = [I.frame(0, a) for a in sq]
+                vt = minus_path_type(sq, lm1, lam0)
+                n = len(intfs)
+                cv_case(B, I, p, sq, intfs, [rng.choice(("sh", "wf", "ss")) for _ in range(n + 1)], lm1, rng.choice((None, intfs[-1])), True,
+                        tag="calc_cv_vector_minus", valid_type=vt)
+                ncvm += 1
+                ctx.dist(f"cv_minus_lm1_{lm1_class(lm1)}_{'valid_' + vt if vt else 'other_sequence'}")
+    ctx.dist("calc_cv_vector_minus", ncvm)
     B.flush()
 
     # ---------------- 5. high_acc_swap: acceptance against the exact ratio
@@ -817,8 +998,12 @@ def run(ctx):
         f"sub-paths of unequal frame counts ({len(uneq_shapes)} distinct count vectors: all such sequences up to length {Luneq}, systematic count "
         f"pairs 1..6 / triples 1..4 in three entry/exit patterns, seeded random ones with decoys) x fine u grid (multiples of 1/64, every c_k/n "
         f"with float neighbours, interval midpoints, j/m with neighbours, random); compute_weight on all sequences up to length {Lcw} x {len(trips)} "
-        f"interface triples x 3 moves; calc_cv_vector on all sequences up to length {Lcv} (+ random longer) x {len(intf_lists)} interface lists "
-        f"(2-5 interfaces) x all move assignments x caps x lambda_minus_one x minus; {ntrials} seeded high_acc_swap set-ups x rand grid; "
+        f"interface triples x 3 moves; seed under length limits on {nlim_paths} paths (all sequences up to length {Llim + 1} with a valid sub-path, "
+        f"built paths with long / several sub-paths) x tis_set.maxlength below / at / above frames+2 of every valid sub-path x path.maxlen in "
+        f"{{len(path), len(path)+1, 100000, None}} x one u per sub-path ({nlim} cases); calc_cv_vector on all sequences up to length {Lcv} (+ random longer) x {len(intf_lists)} interface lists "
+        f"(2-5 interfaces) x all move assignments x caps x lambda_minus_one x minus; [0-] weight vector for {sum(len(c[2]) for c in MINUS_CFG)} (lambda_0, lambda_minus_one) set-ups "
+        f"(absent, negative, 0.0, -0.0, positive below lambda_0) x all sequences up to length {Lm} over the five-region alphabet + all valid [0-] paths "
+        f"of length {Lm + 1} ({ncvm} cases); {ntrials} seeded high_acc_swap set-ups x rand grid; "
         f"{nrand} seeded random real-valued paths (length < {60 if quick else 120}). A case is distinct by its request line; a weight case "
         f"counts as non-trivial only if some frame lies inside [left, right) (so none of the empty-region cases do); all other cases are "
         f"non-trivial (each exercises a modelled function on a distinct input)")
@@ -831,7 +1016,7 @@ def run(ctx):
     ]
     ctx.assumptions += [
         "rgen.random() is uniform on [0,1): the theorem gives the selecting interval, hence probability len_k/n",
-        "len(path) <= path.maxlen when a seed sub-path is cut out (Path.append refuses beyond maxlen)",
+        "len(path) <= path.maxlen (or path.maxlen None) when a seed sub-path is cut out (Path.append refuses beyond maxlen); nothing is assumed about tis_set.maxlength",
         "System reduced to order[0]; moves restricted to 'sh', 'wf', 'ss'",
     ]
 
@@ -870,14 +1055,17 @@ def replay(doc):
     elif op.startswith("pick"):
         o = case["orders"]
         ints = scale([case["left"], case["right"]] + o)
-        pick_case(S, I, o, case["left"], case["right"], case["u"], ints=(ints[0], ints[1], ints[2:]))
+        lim = {"tis_maxlength": case["tis_maxlength"], "path_maxlen": case["path_maxlen"]} if "tis_maxlength" in case else {}
+        pick_case(S, I, o, case["left"], case["right"], case["u"], ints=(ints[0], ints[1], ints[2:]), **lim)
     elif op.startswith("compute_weight"):
         o = case["orders"]
         ints = scale(list(case["interfaces"]) + o)
         cw_case(S, I, I.path(o), o, tuple(case["interfaces"]), case["move"], ints=(ints[:3], ints[3:]))
-    elif op == "calc_cv_vector":
+    elif op.startswith("calc_cv_vector"):
         o = case["orders"]
-        cv_case(S, I, I.path(o), o, tuple(case["interfaces"]), case["moves"], case["lambda_minus_one"], case["cap"], case["minus"])
+        lm1 = case["lambda_minus_one"]
+        vt = minus_path_type(o, lm1, case["interfaces"][0]) if (op == "calc_cv_vector_minus" and case["interfaces"]) else None
+        cv_case(S, I, I.path(o), o, tuple(case["interfaces"]), case["moves"], lm1, case["cap"], case["minus"], tag=op, valid_type=vt)
     elif op == "high_acc_swap":
         has_case(S, I, FakeCtx(), tuple(case["path0"]), tuple(case["path1"]), tuple(case["intf0"]), tuple(case["intf1"]),
                  tuple(case["moves"]), case["rand"])
